@@ -579,6 +579,7 @@ public:
 
   /// \brief Conversion function to mdspan
   template <class AccessorPolicy = Std::default_accessor<element_type>,
+    std::enable_if_t<std::is_same_v<element_type, typename AccessorPolicy::element_type>, int> = 0,
     std::enable_if_t<
       std::is_assignable_v<mdspan_type, mdspan<element_type,extents_type,layout_type,AccessorPolicy>>, int> = 0>
   constexpr mdspan<element_type,extents_type,layout_type,AccessorPolicy>
@@ -589,6 +590,7 @@ public:
 
   /// \brief Conversion function to mdspan
   template <class AccessorPolicy = Std::default_accessor<const element_type>,
+    std::enable_if_t<std::is_same_v<const element_type, typename AccessorPolicy::element_type>, int> = 0,
     std::enable_if_t<
       std::is_assignable_v<const_mdspan_type, mdspan<const element_type,extents_type,layout_type,AccessorPolicy>>, int> = 0>
   constexpr mdspan<const element_type,extents_type,layout_type,AccessorPolicy>
